@@ -210,6 +210,10 @@ fn rejected(bits: u8) -> bool {
     bits & 0b101111 != 0
 }
 
+fn rh_alt(alt: u32) -> u32 {
+    (alt / 2) % 4
+}
+
 struct FdOnly(RawFd);
 impl AsRawFd for FdOnly {
     fn as_raw_fd(&self) -> RawFd {
@@ -253,6 +257,76 @@ struct World {
     rings: BTreeMap<u32, RingH>,
     bufs: Vec<Box<[u8]>>,
     sqes: Vec<SqeInfo>,
+    /// counts harness calls; equivalent API entry points are chosen by `alt % k` (deterministic, not traced)
+    alt: u32,
+    /// standalone only: another host on the same thread (own fs, own ring registry) that keeps itself busy with the
+    /// same user_data values; nothing it does may show in the observed host
+    decoy: Option<Box<Decoy>>,
+}
+
+struct Decoy {
+    fs: Arc<Mutex<Fs>>,
+    iou: Arc<Mutex<IoUringHostState>>,
+    ring: Option<IoUring>,
+    file: Option<File>,
+    buf: Box<[u8]>,
+    n: u64,
+}
+
+impl Decoy {
+    fn new(cfg: &Cfg) -> Decoy {
+        Decoy {
+            fs: Arc::new(Mutex::new(Fs::new(fs_config(cfg), cfg.fs_seed ^ 0xDEC0))),
+            iou: Arc::new(Mutex::new(IoUringHostState::new())),
+            ring: None,
+            file: None,
+            buf: vec![0xDD; 8].into_boxed_slice(),
+            n: 0,
+        }
+    }
+
+    /// One round of activity, entered *inside* whatever the observed host has entered (enter calls nest).
+    fn churn(&mut self, now: Duration, uds: &[u64]) {
+        let (fs, iou) = (self.fs.clone(), self.iou.clone());
+        let _g1 = turmoil_fs::enter(&fs, turmoil_fs::EnterCtx { now, on_corruption: None });
+        let _g2 = turmoil_io_uring::host::enter(&iou, turmoil_io_uring::host::EnterCtx { now });
+        if self.file.is_none() {
+            let _ = create_dir_all("/u");
+            self.file = open_rw("/u/f0").ok();
+        }
+        if self.ring.is_none() || self.n % 11 == 10 {
+            self.ring = IoUring::new(4).ok();
+        }
+        self.n += 1;
+        let (Some(ring), Some(file)) = (self.ring.as_mut(), self.file.as_ref()) else { return };
+        let fd = types::Fd(file.as_raw_fd());
+        let ud = uds.get((self.n as usize) % uds.len().max(1)).copied().unwrap_or(self.n);
+        let e = match self.n % 4 {
+            0 => opcode::Write::new(fd, self.buf.as_ptr(), 8).offset(self.n % 5).build(),
+            1 => opcode::Read::new(fd, self.buf.as_mut_ptr(), 8).build(),
+            2 => opcode::Fsync::new(fd).build(),
+            _ => opcode::AsyncCancel::new(ud).build(),
+        }
+        .user_data(ud);
+        unsafe {
+            let _ = ring.submission().push(&e);
+        }
+        let _ = ring.submit();
+        if self.n % 3 == 0 {
+            let mut cq = ring.completion();
+            cq.sync();
+            for _ in cq.by_ref() {}
+        }
+        if self.n % 13 == 12 {
+            // the decoy's handles share fd *numbers* with the observed host's: they must die while the decoy is current
+            self.file = None;
+            self.ring = None;
+            drop(_g2);
+            drop(_g1);
+            fs.lock().unwrap().crash();
+            iou.lock().unwrap().crash();
+        }
+    }
 }
 
 /// Create, fill and make durable the case's files on the currently entered fs.
@@ -301,7 +375,10 @@ impl World {
             rings: BTreeMap::new(),
             bufs: vec![],
             sqes: vec![],
+            alt: 0,
+            decoy: None,
         };
+        w.decoy = Some(Box::new(Decoy::new(&w.cfg)));
         let fl = {
             let arc = w.twin.clone();
             let _g = turmoil_fs::enter(&arc, turmoil_fs::EnterCtx { now: w.now, on_corruption: None });
@@ -336,6 +413,8 @@ impl World {
             rings: BTreeMap::new(),
             bufs: vec![],
             sqes: vec![],
+            alt: 0,
+            decoy: None,
         };
         if first_start {
             let fl = {
@@ -362,12 +441,28 @@ impl World {
     /// Run `f` with the main fs and the ring registry entered at the current time.
     fn entered<R>(&mut self, f: impl FnOnce(&mut World) -> R) -> R {
         if self.in_sim {
+            self.alt = self.alt.wrapping_add(1);
             return f(self);
         }
         let fs = self.fs.clone();
         let iou = self.iou.clone();
         let _g1 = turmoil_fs::enter(&fs, turmoil_fs::EnterCtx { now: self.now, on_corruption: None });
         let _g2 = turmoil_io_uring::host::enter(&iou, turmoil_io_uring::host::EnterCtx { now: self.now });
+        self.alt = self.alt.wrapping_add(1);
+        if self.alt % 3 == 0 {
+            // nested enter of a different host, before and (every sixth call) after the observed call
+            let uds: Vec<u64> = self.sqes.iter().rev().take(6).map(|q| q.ud).collect();
+            if let Some(d) = self.decoy.as_mut() {
+                d.churn(self.now, &uds);
+            }
+            let r = f(self);
+            if self.alt % 6 == 0 {
+                if let Some(d) = self.decoy.as_mut() {
+                    d.churn(self.now, &uds);
+                }
+            }
+            return r;
+        }
         f(self)
     }
 
@@ -435,7 +530,8 @@ impl World {
                 };
                 self.entered(|w| {
                     let made = match mode {
-                        255 => IoUring::new(entries),
+                        255 if w.alt % 2 == 0 => IoUring::new(entries),
+                        255 => IoUring::builder().clone().build(entries),
                         0 => IoUring::builder().build(entries),
                         1 => IoUring::builder().setup_sqpoll(10).build(entries),
                         _ => IoUring::builder().setup_iopoll().build(entries),
@@ -445,7 +541,11 @@ impl World {
                         Ok(ring) => {
                             let fd = ring.as_raw_fd();
                             let (sqe, cqe) = (ring.params().sq_entries(), ring.params().cq_entries());
-                            let afd = AsyncFd::new(FdOnly(fd)).ok();
+                            let afd = if w.alt % 4 < 2 {
+                                AsyncFd::new(FdOnly(fd)).ok()
+                            } else {
+                                AsyncFd::with_interest(FdOnly(fd), turmoil_io_uring::Interest::READABLE | turmoil_io_uring::Interest::WRITABLE).ok()
+                            };
                             let id = w.next_ring.get();
                             w.next_ring.set(id + 1);
                             w.rings.insert(id, RingH { ring: Some(ring), cq: None, afd, fd, woken: Rc::new(Cell::new(0)) });
@@ -467,23 +567,49 @@ impl World {
                 self.bufs.push(buf);
                 let bi = self.bufs.len() - 1;
                 let ptr = self.bufs[bi].as_mut_ptr();
-                let mut entry = match kind {
-                    Kind::Read { off, len, .. } => opcode::Read::new(types::Fd(fdraw), ptr, *len).offset(*off).build(),
+                // equivalent ways of building the same SQE, chosen by the call counter
+                let skip_off = self.alt % 2 == 0; // offset defaults to 0
+                let base = match kind {
+                    Kind::Read { off, len, .. } => {
+                        let b = opcode::Read::new(types::Fd(fdraw), ptr, *len);
+                        if *off == 0 && skip_off { b.build() } else { b.offset(*off).build() }
+                    }
                     Kind::Write { off, data, .. } => {
-                        opcode::Write::new(types::Fd(fdraw), ptr as *const u8, data.len() as u32).offset(*off).build()
+                        let b = opcode::Write::new(types::Fd(fdraw), ptr as *const u8, data.len() as u32);
+                        if *off == 0 && skip_off { b.build() } else { b.offset(*off).build() }
                     }
                     Kind::Fsync { .. } => opcode::Fsync::new(types::Fd(fdraw)).build(),
                     Kind::Cancel { target } => opcode::AsyncCancel::new(*target).build(),
-                }
-                .user_data(*ud);
-                if *flags != 0 {
-                    entry = entry.flags(sq_flags(*flags));
-                }
+                };
+                let entry = match self.alt % 3 {
+                    0 => {
+                        let e = base.user_data(*ud);
+                        if *flags != 0 { e.flags(sq_flags(*flags)) } else { e }
+                    }
+                    1 => base.flags(sq_flags(*flags)).user_data(*ud), // flags (possibly empty) first
+                    _ => base.user_data(7777).flags(squeue::Flags::IO_LINK).flags(sq_flags(*flags)).user_data(*ud).clone(), // overwritten
+                };
                 let (ring, ud, kind, flags) = (*ring, *ud, kind.clone(), *flags);
                 self.entered(|w| {
                     let Some(rh) = w.rings.get_mut(&ring) else { return "invalid".to_string() };
                     let Some(r) = rh.ring.as_mut() else { return "invalid".to_string() };
-                    match unsafe { r.submission().push(&entry) } {
+                    let pushed = if w.alt % 2 == 0 {
+                        let mut sq = r.submission();
+                        sq.sync();
+                        let before = sq.len();
+                        let res = unsafe { sq.push(&entry) };
+                        // `len` / `is_empty` must move with the push
+                        if res.is_ok() && (sq.len() != before + 1 || sq.is_empty()) {
+                            return "pushed !len".to_string();
+                        }
+                        if res.is_err() && (sq.len() != before || !sq.is_full()) {
+                            return "full !len".to_string();
+                        }
+                        res
+                    } else {
+                        unsafe { r.submission_shared().push(&entry) }
+                    };
+                    match pushed {
                         Ok(()) => {
                             let gen = match &kind {
                                 Kind::Read { fd, .. } | Kind::Write { fd, .. } | Kind::Fsync { fd } => {
@@ -500,25 +626,35 @@ impl World {
             }
             Op::Submit { ring, mode, want } => {
                 let (ring, mode, want) = (*ring, *mode, *want);
-                let _ = turmoil_io_uring::verif::take_latencies();
-                let res = self.entered(|w| {
-                    let Some(rh) = w.rings.get(&ring) else { return "invalid".to_string() };
-                    let Some(r) = rh.ring.as_ref() else { return "invalid".to_string() };
-                    let res = match mode {
-                        0 => r.submit(),
-                        1 => r.submit_and_wait(want as usize),
+                let (res, lats) = self.entered(|w| {
+                    let Some(rh) = w.rings.get(&ring) else { return ("invalid".to_string(), vec![]) };
+                    let Some(r) = rh.ring.as_ref() else { return ("invalid".to_string(), vec![]) };
+                    // the latency log is per thread: take exactly what this call logs (the decoy host submits too)
+                    let _ = turmoil_io_uring::verif::take_latencies();
+                    let ts = types::Timespec::from(Duration::from_micros(1_500));
+                    let res = match (mode, rh_alt(w.alt)) {
+                        (0, 0) => r.submit(),
+                        (0, 1) => r.submitter().submit(),
+                        (0, 2) => r.submitter().submit_with_args(0, &types::SubmitArgs::new()),
+                        (0, _) => r.submitter().submit_with_args(1, &types::SubmitArgs::new().timespec(&ts)),
+                        (1, 0) => r.submit_and_wait(want as usize),
+                        (1, 1) => r.submitter().submit_and_wait(want as usize),
+                        (1, _) => r.submitter().submit_with_args(want as usize, &types::SubmitArgs::new().timespec(&ts)),
                         _ => {
                             let ts = types::Timespec::new().sec(1).nsec(1_500_000_000);
                             let args = types::SubmitArgs::new().timespec(&ts);
                             r.submitter().submit_with_args(0, &args)
                         }
                     };
-                    match res {
-                        Ok(n) => format!("submitted {n}"),
-                        Err(e) => format!("err {}", util::io_kind(&e)),
-                    }
+                    let lats = turmoil_io_uring::verif::take_latencies();
+                    (
+                        match res {
+                            Ok(n) => format!("submitted {n}"),
+                            Err(e) => format!("err {}", util::io_kind(&e)),
+                        },
+                        lats,
+                    )
                 });
-                let lats = turmoil_io_uring::verif::take_latencies();
                 if !lats.is_empty() {
                     ora.push(format!(
                         "lat {}",
@@ -531,8 +667,16 @@ impl World {
                 let ring = *ring;
                 self.entered(|w| {
                     let Some(rh) = w.rings.get_mut(&ring) else { return "invalid".to_string() };
-                    let Some(r) = rh.ring.as_ref() else { return "invalid".to_string() };
-                    let cq = unsafe { std::mem::transmute::<CompletionQueue<'_>, CompletionQueue<'static>>(r.completion_shared()) };
+                    let Some(r) = rh.ring.as_mut() else { return "invalid".to_string() };
+                    // exclusive and shared handles are the same object; the harness keeps it across calls
+                    let cq = if w.alt % 2 == 0 {
+                        unsafe { std::mem::transmute::<CompletionQueue<'_>, CompletionQueue<'static>>(r.completion()) }
+                    } else {
+                        unsafe { std::mem::transmute::<CompletionQueue<'_>, CompletionQueue<'static>>(r.completion_shared()) }
+                    };
+                    if !cq.is_empty() || cq.len() != 0 {
+                        return "unit !fresh-handle-not-empty".to_string();
+                    }
                     rh.cq = Some(cq);
                     "unit".to_string()
                 })
@@ -543,6 +687,9 @@ impl World {
                     let Some(rh) = w.rings.get_mut(&ring) else { return "invalid".to_string() };
                     let Some(cq) = rh.cq.as_mut() else { return "invalid".to_string() };
                     cq.sync();
+                    if cq.is_empty() != (cq.len() == 0) {
+                        return format!("synced {} !is_empty", cq.len());
+                    }
                     format!("synced {}", cq.len())
                 })
             }
@@ -551,7 +698,30 @@ impl World {
                 let got = self.entered(|w| {
                     let rh = w.rings.get_mut(&ring)?;
                     let cq = rh.cq.as_mut()?;
-                    Some(cq.next().map(|e| (e.user_data(), e.result())))
+                    let before = cq.len();
+                    // three spellings of "take the next completion of the snapshot"
+                    let e = match w.alt % 3 {
+                        0 => cq.next(),
+                        1 => cq.by_ref().take(1).next(),
+                        _ => {
+                            let mut got = None;
+                            #[allow(clippy::never_loop)]
+                            for e in &mut *cq {
+                                got = Some(e);
+                                break;
+                            }
+                            got
+                        }
+                    };
+                    // cross-checks that do not belong to the trace: flags are always 0, `len` counts down with each yield
+                    let bad = match &e {
+                        Some(e) => e.flags() != 0 || cq.len() + 1 != before || e.clone().user_data() != e.user_data(),
+                        None => cq.len() != before && before != 0,
+                    };
+                    if bad {
+                        return Some(Some((u64::MAX - 7, -999_999)));
+                    }
+                    Some(e.map(|e| (e.user_data(), e.result())))
                 });
                 match got {
                     None => "invalid".to_string(),
@@ -605,9 +775,15 @@ impl World {
                     let Some(rh) = w.rings.get(&ring) else { return "invalid".to_string() };
                     let Some(afd) = rh.afd.as_ref() else { return "invalid".to_string() };
                     let mut fut = Box::pin(afd.readable());
+                    if afd.as_raw_fd() != rh.fd || afd.get_ref().0 != rh.fd {
+                        return "err fdmismatch".to_string();
+                    }
                     let r = match poll_once(fut.as_mut()) {
                         Poll::Pending => "pending".to_string(),
-                        Poll::Ready(Ok(_)) => "ready".to_string(),
+                        Poll::Ready(Ok(mut guard)) => {
+                            guard.clear_ready();
+                            "ready".to_string()
+                        }
                         Poll::Ready(Err(e)) => format!("err {}", util::io_kind(&e)),
                     };
                     drop(fut);
@@ -649,7 +825,10 @@ impl World {
                 self.entered(|w| {
                     let Some(rh) = w.rings.get_mut(&ring) else { return "invalid".to_string() };
                     let Some(r) = rh.ring.as_mut() else { return "invalid".to_string() };
-                    let sq = r.submission();
+                    let sq = if w.alt % 2 == 0 { r.submission() } else { unsafe { r.submission_shared() } };
+                    if sq.is_empty() != (sq.len() == 0) {
+                        return "sq !is_empty".to_string();
+                    }
                     format!("sq len={} full={} cap={}", sq.len(), sq.is_full() as u8, sq.capacity())
                 })
             }
@@ -868,6 +1047,38 @@ fn run_case_sim(case: &Case, seed: u64) -> Vec<String> {
                     }
                 });
             }
+            // a second host with its own fs and ring registry (same fd numbers!) that never rests
+            sim.host("decoy", || async {
+                create_dir_all("/u")?;
+                let file = open_rw("/u/f0")?;
+                let fd = types::Fd(file.as_raw_fd());
+                let mut ring = IoUring::new(4)?;
+                let mut buf = vec![0xDDu8; 8];
+                let mut k = 0u64;
+                loop {
+                    k += 1;
+                    let e = match k % 4 {
+                        0 => opcode::Write::new(fd, buf.as_ptr(), 8).offset(k % 5).build(),
+                        1 => opcode::Read::new(fd, buf.as_mut_ptr(), 8).build(),
+                        2 => opcode::Fsync::new(fd).build(),
+                        _ => opcode::AsyncCancel::new(k % 9).build(),
+                    }
+                    .user_data(k % 9);
+                    unsafe {
+                        let _ = ring.submission().push(&e);
+                    }
+                    let _ = ring.submit();
+                    if k % 3 == 0 {
+                        let mut cq = ring.completion();
+                        cq.sync();
+                        for _ in cq.by_ref() {}
+                    }
+                    if k % 17 == 0 {
+                        ring = IoUring::new(2)?;
+                    }
+                    tokio::time::sleep(Duration::from_nanos(TICK_NS)).await;
+                }
+            });
             let mut dead = false;
             let step = |sim: &mut turmoil::Sim<'_>| -> Result<(), &'static str> {
                 match catch(|| sim.step()) {
@@ -1117,13 +1328,27 @@ fn gen_history(rng: &mut Rng, p: &GenParams) -> (Cfg, Vec<Op>) {
                 next_ud += 1;
                 next_ud - 1
             };
+            // sizes: mostly a few bytes; sometimes nothing at all; sometimes several cache pages far past EOF
+            let (max_off, min_len, max_len) = match rng.below(40) {
+                0 | 1 => (12, 0, 0),
+                2 | 3 | 4 => (600, 40, 300),
+                _ => (12, 1, 8),
+            };
             let kind = match rng.below(10) {
-                0..=3 => Kind::Read { fd, off: rng.below(12), len: rng.range(1, 8) as u32 },
+                0..=3 => Kind::Read { fd, off: rng.below(max_off), len: rng.range(min_len, max_len) as u32 },
                 4..=7 => {
-                    let n = rng.range(1, 6) as usize;
-                    Kind::Write { fd, off: rng.below(12), data: (0..n).map(|_| rng.below(255) as u8).collect() }
+                    let n = rng.range(min_len, max_len.min(min_len + 6).max(min_len)) as usize;
+                    let n = if max_len > 8 { rng.range(min_len, max_len) as usize } else { n };
+                    Kind::Write { fd, off: rng.below(max_off), data: (0..n).map(|_| rng.below(255) as u8).collect() }
                 }
                 _ => Kind::Fsync { fd },
+            };
+            // user_data is an opaque u64: the extremes are as good as any
+            let ud = if !p.dup_ud && rng.chance(1, 40) {
+                let x = if rng.chance(1, 2) { 0 } else { u64::MAX - rng.below(2) };
+                if pushed_uds.contains(&x) || submitted_uds.contains(&x) { ud } else { x }
+            } else {
+                ud
             };
             let flags: u8 = if rng.below(100) < p.w_link {
                 match rng.below(8) {
@@ -1586,6 +1811,45 @@ fn exhaustive(out: &mut Vec<Case>, len: usize) {
     }
 }
 
+/// Large batches: a full SQ of 16–64 entries with one latency matures as a single batch (one big shuffle),
+/// drained in one go, partially, or around a cancel of some of its members.
+fn big_batches(rng: &mut Rng, out: &mut Vec<Case>, n: usize) {
+    for _ in 0..n {
+        let depth = *rng.pick(&[16u32, 32, 64]);
+        let lat = *rng.pick(&[0u64, 1_000_000]);
+        let cfg = Cfg { nfiles: 1, lat_min: lat, lat_max: lat, cache: false, fs_seed: rng.next() % 1000, init: vec![(0..40).map(|i| i as u8).collect()] };
+        let mut ops = vec![Op::NewRing(depth), Op::CqNew(0)];
+        for i in 0..depth as u64 {
+            let kind = match rng.below(3) {
+                0 => Kind::Read { fd: 0, off: rng.below(40), len: rng.range(1, 8) as u32 },
+                1 => Kind::Write { fd: 0, off: rng.below(40), data: vec![i as u8; rng.range(1, 4) as usize] },
+                _ => Kind::Fsync { fd: 0 },
+            };
+            ops.push(Op::Push { ring: 0, ud: 100 + i, kind, flags: 0 });
+        }
+        ops.push(Op::Push { ring: 0, ud: 99, kind: Kind::Fsync { fd: 0 }, flags: 0 }); // full
+        ops.push(Op::Submit { ring: 0, mode: rng.below(2) as u8, want: depth });
+        ops.push(Op::Advance(1_000_000));
+        if rng.chance(1, 2) {
+            // cancel a few members of the matured batch (some already promoted by a partial drain)
+            ops.push(Op::CqSync(0));
+            for _ in 0..rng.below(5) {
+                ops.push(Op::Next(0));
+            }
+            for k in 0..rng.range(1, 4) {
+                ops.push(Op::Push { ring: 0, ud: 10 + k, kind: Kind::Cancel { target: 100 + rng.below(depth as u64) }, flags: 0 });
+            }
+            ops.push(Op::Submit { ring: 0, mode: 0, want: 0 });
+        }
+        ops.push(Op::CqSync(0));
+        for _ in 0..depth + 8 {
+            ops.push(Op::NextOpt(0));
+        }
+        closing(&mut ops, 1);
+        out.push(Case { family: "bigbatch", mode: "standalone", cfg, ops });
+    }
+}
+
 /// One case: all 64 combinations of the six IOSQE flag bits.
 fn flag_sweep(out: &mut Vec<Case>) {
     let cfg = Cfg { nfiles: 1, lat_min: 0, lat_max: 0, cache: false, fs_seed: 1, init: vec![vec![9, 9]] };
@@ -1696,6 +1960,7 @@ pub fn main(args: &Args, out: &mut dyn Write) {
         }
         cancel_matrix(&mut rng, &mut cases);
         flag_sweep(&mut cases);
+        big_batches(&mut rng, &mut cases, 12 * scale);
         exhaustive(&mut cases, if args.tier == "thorough" { 6 } else { 5 });
         crash_points(&mut rng, &mut cases, 30 * scale);
         durability(&mut rng, &mut cases, 120 * scale);
